@@ -244,6 +244,22 @@ Definition py_str_int (n : Z) : res (list Z) :=
   if py_int_max_str_digits <? zlen d then Crash ValueError
   else Ok (if n <? 0 then 45 :: d else d).
 
+(* chr(i): the one-character string with that code point; ValueError outside range(0x110000) *)
+Definition py_chr (i : Z) : res Z :=
+  if (0 <=? i) && (i <? 1114112) then Ok i else Crash ValueError.
+
+(* a list that holds strings and ints (the `bits` of ptn.format_move); str(v) of an element *)
+Inductive pyval := VStr (s : list Z) | VInt (n : Z).
+Definition py_str_val (v : pyval) : res (list Z) :=
+  match v with VStr s => Ok s | VInt n => py_str_int n end.
+
+(* d.get(k, default) on a dict literal *)
+Fixpoint py_dict_get_default {K V} (eqb : K -> K -> bool) (d : list (K * V)) (k : K) (dflt : V) : V :=
+  match d with
+  | [] => dflt
+  | (k', v) :: d' => if eqb k' k then v else py_dict_get_default eqb d' k dflt
+  end.
+
 (* l * n for a list *)
 Definition py_list_repeat {A} (l : list A) (n : Z) : list A := concat (repeat l (Z.to_nat n)).
 
